@@ -600,11 +600,14 @@ Section Lazy.
     lclear_frame ;;;
     let le0 := {| ll_match := m; ll_full := st_full_file_idx st; ll_caps := [];
                   ll_ctx := {| sc_stmt := (0, 0); sc_stanza := st_start st; sc_node := 0 |} |} in
-    n <- lfull_match_node le0 ;;
-    iterM (fun s =>
-             let c := {| sc_stmt := stmt_loc s; sc_stanza := st_start st; sc_node := n |} in
-             ctx_wrap (CtxStmts [c]) (lexec_stmt fuel (ll_with_ctx le0 c) s))
-          (st_stmts st).
+    match nodes_for_capture m (st_full_file_idx st) with
+    | [] => panic P_missing_full_capture                       (* .expect("missing capture for full match") *)
+    | n :: _ =>
+        iterM (fun s =>
+                 let c := {| sc_stmt := stmt_loc s; sc_stanza := st_start st; sc_node := n |} in
+                 ctx_wrap (CtxStmts [c]) (lexec_stmt fuel (ll_with_ctx le0 c) s))
+              (st_stmts st)
+    end.
 
   (* File::execute_lazy_into after check_globals: merged matches in oracle order, then evaluation *)
   Definition lexec_file (fuel : nat) (ms : list (N * qmatch)) : LM unit :=
